@@ -45,7 +45,7 @@ pub fn expand(
             fn source(&self) -> derive_more::core::option::Option<
                 &(dyn derive_more::with_trait::Error + 'static)
             > {
-                use derive_more::__private::AsDynError;
+                use derive_more::__private::AsDynError as _;
                 #source
             }
         }
